@@ -61,6 +61,31 @@ CHECKS = {
    text="PoolConc.tla models the assembler goroutines of both packages as pc-machines whose atomic steps are the code segments between lock acquisitions (the verifYield hooks), with a concurrent FlushAll. TLC checks the re-validating design exhaustively (no panic, no misdelivery, completion at most once, single entry per connection, deadlock freedom) and, for the code's actual shape, exports one schedule per distinct terminal state of each workload; every schedule is replayed on the real assemblers by a cooperative scheduler through the hooks and TLC validates the recorded callbacks against Reasm.tla (order per direction, lifecycle, no panic, no packet handed to another connection's stream, no overlapping callbacks, no stall); a free-running -race phase turns race reports into rejected events.",
    design_ref="4/C12", technique="TLA+ concurrent model (TLC) + schedule replay with yield hooks + TLC trace validation + race-detector phase",
    note="Exhaustive only at yield granularity; races found only by the uncontrolled phase; the recycled-connection window is a recorded known finding for both packages."),
+ "C02": dict(
+   category="exploration",
+   text="Pure.tla is a determinism monitor in Judge form (a decode keyed by input, first layer and options must reproduce the digest first seen; the caller's buffer incl. spare-capacity canaries must stay intact; reads of a shared eager packet must equal the sequential result; race/panic/hang have no transition). TLC enumerates histories A,B,(C),A over input pools x 12 option sets and all pairs of accessor programs over 9 accessor groups and checks an ideal pure decoder; the driver replays them on the real decoders sequentially, on 8 goroutines, and on one shared eager packet in a -race child process whose race reports become events; TLC validates the traces.",
+   design_ref="4/C02", technique="TLA+ determinism monitor + TLC-enumerated histories/programs + replay (incl. -race child) + TLC trace validation",
+   note="Inputs and schedules are sampled; races are those the detector reports for schedules that occurred."),
+ "C04": dict(
+   category="model_checking",
+   text="Pool.tla models the packet pool protocol (Get returns any free block or a fresh one, CopyIn, Dispose) for 3 threads x 2 packets and TLC checks NoAlias / FreeDisjoint / ContentOK over all interleavings; exported per-thread orders are replayed on real goroutines (also in a -race build) logging block identity and content canaries, validated by TLC (PoolTrace); ownership clauses (copy isolates from later mutation; NoCopy/Pool decode identically to default, lengths around the 1500-byte block) are judged by Pure.tla with the ownership option projected out of the key.",
+   design_ref="4/C04", technique="TLA+ pool protocol (TLC exhaustive) + order replay + TLC trace validation; Pure.tla for the ownership clauses",
+   note="No yield point inside NewPacket: real schedules are sampled; double Dispose is out of scope."),
+ "C06": dict(
+   category="exploration",
+   text="Wire.tla states layout laws for the core stack (IPv4/TCP options and padding, UDP length incl. jumbo, IPv6 payload length and TLV padding/alignment, NDP option units and wire order, GRE flags vs fields) and the stacking relation; WireGen.tla lets TLC enumerate all list shapes and stacks and checks the laws against ideal encoders; every shape/stack is written by the real serializers, decoded and written again, as are layers decoded from fixtures/mutations over ~76 types; TLC validates every round trip against Codec.tla (types, field digests, list order, payload, no error, not truncated, bytes'=bytes) and the layout laws on the real header bytes.",
+   design_ref="4/C06", technique="TLC scenario enumeration + ideal-encoder law check + TLC trace validation of real round trips",
+   note="Field equality is a Go projection with documented exclusions; serialization errors are outside the property; layout laws cover the core stack only; 16 serializer limitations are recorded known findings."),
+ "C07": dict(
+   category="exploration",
+   text="SerHistory.tla (extends SerializeBuffer.tla) enumerates all buffer histories in the bound (fresh, pre-sized, filled with 0xAA/0xFF and cleared, reused by other stacks) and predicts their stale bytes (confirmed on the real buffer); layers decoded from fixtures/mutations (76 types) x 4 option sets are serialized into a fresh and into dirty histories, twice each, from a fresh decode per call; TLC validates against SerPure.tla (function law by memo: same layer, payload, options => same bytes; no panic/hang).",
+   design_ref="4/C07", technique="TLC history enumeration + replay + TLC trace validation",
+   note="Histories exhaustive within the bound, layers sampled; digests used for equality only; Dot11 masked by two known findings."),
+ "C17": dict(
+   category="model_checking",
+   text="Flow.tla defines endpoints/flows as values with Eq, Less (strict total order), Reverse, Split/Join and the hash relation; FlowGen.tla checks the laws exhaustively over a small universe (types, byte alphabet {0,1,255}, lengths 0..2 and 15-17) with an ideal implementation and exports all pairs; the driver builds exactly those values through every constructor route from dirty arrays and records ==, map-key behaviour, LessThan, Reverse, Endpoints round trip and FastHash relations; for decoded real packets every layer exposing a flow must carry exactly its address fields and the address-swapped packet must give the reversed flow with equal hash; TLC validates every observation.",
+   design_ref="4/C17", technique="TLA+ value algebra (TLC exhaustive small scope) + replay of all pairs + TLC trace validation",
+   note="The hash is judged relationally (FNV is not computed in TLC); layer address fields are read by reflection over conventional field names."),
  "C18": dict(
    category="model_checking",
    text="SerializeBuffer.tla: TLC proves exhaustively (all op sequences to the bound) that the transcription of writer.go refines the abstract buffer; every exported behaviour is replayed on the real buffer and every real step is validated by TLC against the abstract layer (contents, returned-slice length, window position, layers).",
